@@ -1,0 +1,61 @@
+//go:build verif
+
+// Contracts for the deductive verifier in /verif (comment-only file; compiled only with -tags verif).
+package udp
+
+// ---------------------------------------------------------------------------------------------
+// C05: UDP probe frames: fresh layer structs with exactly the requested fields; TTL, IP flags, protocol and total
+// length are the configured ones; the total length override (length != 0) switches automatic length fixing off and
+// then appears verbatim, while the UDP length field stays 8 + len(payload); the payload layer is the configured
+// payload; spoofed fields stay in range; Ethernet first iff not VPN mode.
+//@ pred iphdr(ip *layers.IPv4, f *PacketFiller, r *scan.Request, id0 int) = fresh(ip) && ip.SrcIP == r.SrcIP && ip.DstIP == r.DstIP && ip.Version == 4 && ip.IHL == 5
+//@      && ip.Id == 1 + id0 && 1 <= ip.Id && ip.Id <= 65535 && ip.TTL == f.ttl && ip.Flags == f.flags && ip.Length == f.length && ip.Protocol == f.proto
+//@ pred udphdr(u *layers.UDP, f *PacketFiller, r *scan.Request, sp0 int) = fresh(u) && u.DstPort == r.DstPort && u.SrcPort == 32768 + sp0 && 32768 <= u.SrcPort && u.SrcPort <= 60999
+//@      && u.Length == (8 + len(f.payload)) % 65536
+//@ pred ethhdr(e *layers.Ethernet, r *scan.Request) = fresh(e) && e.SrcMAC == r.SrcMAC && e.DstMAC == r.DstMAC && e.EthernetType == 2048
+//@ func (*PacketFiller).Fill
+//@   props C05
+//@   observe rand.Intn, SetNetworkLayerForChecksum, gopacket.SerializeLayers
+//@   entry row cksumerr: [call rand.Intn(65535) as (id0) ; call rand.Intn(28232) as (sp0) ; call SetNetworkLayerForChecksum(bind_ck, bind_n) as (ce)] when ce != nil && ret == ce -> exit
+//@   entry row vpn:   [call rand.Intn(65535) as (id0) ; call rand.Intn(28232) as (sp0) ; call SetNetworkLayerForChecksum(bind_ck, bind_n) as (ce) ; call gopacket.SerializeLayers(packet, bind_opt, bind_ls) as (se)]
+//@                       when ce == nil && f.vpnMode && ret == se && opt.ComputeChecksums && (opt.FixLengths <==> f.length == 0) && len(ls) == 3
+//@                         && isptr(ls[0], layers.IPv4) && isptr(ls[1], layers.UDP) && ck == addr(asptr(ls[1], layers.UDP).tcpipchecksum) && isptr(n, layers.IPv4) && asptr(n, layers.IPv4) == asptr(ls[0], layers.IPv4)
+//@                         && iphdr(asptr(ls[0], layers.IPv4), f, r, id0) && udphdr(asptr(ls[1], layers.UDP), f, r, sp0) && istype(ls[2], gopacket.Payload) && astype(ls[2], gopacket.Payload) == f.payload -> exit
+//@   entry row eth:   [call rand.Intn(65535) as (id0) ; call rand.Intn(28232) as (sp0) ; call SetNetworkLayerForChecksum(bind_ck, bind_n) as (ce) ; call gopacket.SerializeLayers(packet, bind_opt, bind_ls) as (se)]
+//@                       when ce == nil && !f.vpnMode && ret == se && opt.ComputeChecksums && (opt.FixLengths <==> f.length == 0) && len(ls) == 4
+//@                         && isptr(ls[0], layers.Ethernet) && ethhdr(asptr(ls[0], layers.Ethernet), r)
+//@                         && isptr(ls[1], layers.IPv4) && isptr(ls[2], layers.UDP) && ck == addr(asptr(ls[2], layers.UDP).tcpipchecksum) && isptr(n, layers.IPv4) && asptr(n, layers.IPv4) == asptr(ls[1], layers.IPv4)
+//@                         && iphdr(asptr(ls[1], layers.IPv4), f, r, id0) && udphdr(asptr(ls[2], layers.UDP), f, r, sp0) && istype(ls[3], gopacket.Payload) && astype(ls[3], gopacket.Payload) == f.payload -> exit
+
+// C05: every option sets exactly its own field (frame: nothing else of the filler changes); the payload option stores a private copy
+//@ func WithTTL$1
+//@   props C05
+//@   modifies f.ttl
+//@   ensures f.ttl == ttl
+//@ func WithIPTotalLength$1
+//@   props C05
+//@   modifies f.length
+//@   ensures f.length == length
+//@ func WithIPProtocol$1
+//@   props C05
+//@   modifies f.proto
+//@   ensures f.proto == proto
+//@ func WithIPFlags$1
+//@   props C05
+//@   modifies f.flags
+//@   ensures f.flags == flags
+//@ func WithVPNmode$1
+//@   props C05
+//@   modifies f.vpnMode
+//@   ensures f.vpnMode == vpnMode
+//@ func WithPayload$1
+//@   props C05
+//@   modifies f.payload
+//@   ensures len(f.payload) == len(payload) && fresh(backing(f.payload)) && (forall i int :: 0 <= i && i < len(payload) ==> f.payload[i] == payload[i])
+// constructor: defaults (TTL 64, protocol UDP, don't-fragment, no payload), then the options in order, nothing else
+//@ func NewPacketFiller
+//@   props C05
+//@   observe o
+//@   entry row init:  [] -> loop 0
+//@   loop 0 row apply: [call o(bind_x)] when fresh(x) -> continue
+//@   loop 0 row done:  [] when fresh(ret) -> exit
